@@ -74,7 +74,8 @@ def run(ck):
                    constants={"MaxBase": 3, "MaxOvr": 3, "Small": small}, judge=judge, sig=sig, nontrivial=nontrivial)
     ck.evaluations *= REPS
     ck.assumptions += ["duplicates are judged as equal strings after trimming (textually different spellings of one IP are not generated)",
-                       "IPv4-mapped IPv6 literals, entries without a port and upper-case spellings of the Fly host are outside the generated space "
-                       "(the statement does not fix their treatment)",
+                       "an IPv4 address written as an IPv4-mapped IPv6 literal ([::ffff:a.b.c.d]) is an IPv4 address: its family is the one it can be bound on "
+                       "(two of the eight concretisation worlds use that spelling for an IPv4 token)",
+                       "entries without a port and upper-case spellings of the Fly host are outside the generated space (the statement does not fix their treatment)",
                        "all-blank input: an error or an empty result are both accepted (the statement is silent)",
                        "the wildcard host (empty) has no IP family: the unsuffixed network is expected"]
